@@ -19,6 +19,44 @@ fuel, every cache and reloader state (`St`, `RSt`), every loader program.
 namespace AmVerif.Props.C10
 open AmVerif.Gen AmVerif.Model
 
+/-! ## Concrete instances used by the `example`s below -/
+
+/-- a cache WITH a reloader over a source where every type is hot-reloaded and loads to `n` -/
+def exEnv (n : Int) : Env :=
+  { read := fun _ _ _ => .ok [], readDir := fun _ _ => .ok [],
+    types := fun _ => { hot := true, prog := fun _ => .ret (.int n) }, hasReloader := true }
+
+/-- the same source, type 1 opts out of hot-reloading -/
+def exEnvOpt (n : Int) : Env :=
+  { exEnv n with types := fun ty => { hot := ty != 1, prog := fun _ => .ret (.int n) } }
+
+/-- the same source in a cache without reloader -/
+def exEnvNo (n : Int) : Env := { exEnv n with hasReloader := false }
+
+def exKey : Key := ⟨0, "a"⟩
+def exKeyOpt : Key := ⟨1, "a"⟩
+
+/-- load (dynamic, registered with the reloader), remove, re-create with `get_or_insert`, edit the
+source (`exEnv 2`), notify, reload: the former witness of F-C10 -/
+def exHistory : List (Env × HOp) :=
+  [(exEnv 1, .api (.load exKey)), (exEnv 1, .hotReload), (exEnv 1, .api (.remove exKey)),
+   (exEnv 1, .api (.getOrInsert exKey (.int 7))),
+   (exEnv 2, .notify [.asset exKey]), (exEnv 2, .hotReload)]
+
+/-- the cache after `load; hot_reload; remove; get_or_insert` -/
+def exInserted : St × RSt := runH 5 (exHistory.take 4) ({}, {})
+
+/-- the load created a dynamic entry and the reloader knows it (and still does after the removal) -/
+example : ((runH 5 (exHistory.take 2) ({}, {})).1.lookup exKey).map (·.dyn) = some true ∧
+    ((runH 5 (exHistory.take 2) ({}, {})).2.graph.get (.asset exKey)).map (·.typed) = some true ∧
+    (exInserted.2.graph.get (.asset exKey)).map (·.typed) = some true := by
+  decide
+
+/-- a dynamic entry IS rewritten by the same notification (the histories are not trivially inert) -/
+example : ((runH 5 [(exEnv 1, .api (.load exKey)), (exEnv 1, .hotReload), (exEnv 2, .notify [.asset exKey]),
+    (exEnv 2, .hotReload)] ({}, {})).1.lookup exKey).map (fun c => (c.val, c.rid)) = some (.int 2, 1) := by
+  decide
+
 /-! ## The regenerated conditions this property rests on (`Gen/Tables.lean`, from the source) -/
 
 /-- `add_any` (the `get_or_insert` path) never creates a dynamic entry. -/
@@ -29,6 +67,9 @@ theorem loadedEntryDynamic_cfg : ∀ hot r, loadedEntryDynamic hot r = (hot && r
 
 /-- `reload_untyped` returns before loading anything when the entry is static -/
 theorem reloadSkipsStatic_cfg : reloadSkipsStatic = true := by decide
+
+example : insertedEntryDynamic true true = false ∧ loadedEntryDynamic true true = true ∧
+    loadedEntryDynamic false true = false ∧ loadedEntryDynamic true false = false := by decide
 
 /-! ## (a) `get_or_insert` creates static entries -/
 
@@ -52,11 +93,17 @@ theorem C10_get_or_insert_static (env : Env) (fuel : Nat) (s : St) (key : Key) (
         (s.insertKeepFirst key (insertedCell env key v s.next)).2.val = _
     rw [hc, hi]
 
+/-- hot type, cache with reloader: still static -/
+example : (step (exEnv 1) 5 {} (.getOrInsert exKey (.int 7))).1.lookup exKey = some ⟨.int 7, false, 0, false, 0⟩ :=
+  (C10_get_or_insert_static (exEnv 1) 5 {} exKey (.int 7) rfl).1
+
 /-- every cell `get_or_insert` can create satisfies: static, `NEVER`, flag clear -/
 theorem insertedCell_static (env : Env) (key : Key) (v : Val) (addr : Nat) :
     (insertedCell env key v addr).dyn = false ∧ (insertedCell env key v addr).rid = ReloadId_NEVER ∧
     (insertedCell env key v addr).flag = false :=
   ⟨insertedEntryDynamic_cfg (env.types key.ty).hot env.hasReloader, rfl, rfl⟩
+
+example : (insertedCell (exEnv 1) exKey (.int 7) 3).dyn = false := (insertedCell_static (exEnv 1) exKey (.int 7) 3).1
 
 /-! ## (b) which loaded entries are dynamic -/
 
@@ -70,6 +117,9 @@ theorem newCells_fresh (env : Env) : NewCellsSat env (FreshCell env) := by
   refine ⟨?_, rfl, rfl⟩
   simp only [newCell, loadedEntryDynamic_cfg, Bool.and_eq_true]
 
+example : (newCell (exEnv 1) 0 (.int 1) 0).dyn = true ∧ (newCell (exEnvOpt 1) 1 (.int 1) 0).dyn = false ∧
+    (newCell (exEnvNo 1) 0 (.int 1) 0).dyn = false := by decide
+
 /-- A cell created by a load — at any depth of any evaluation of any loader — is dynamic iff its
 type is hot-reloaded AND the cache has a reloader; it starts with reload id `NEVER` and a clear
 flag. -/
@@ -79,6 +129,10 @@ theorem C10_loaded_dynamic_iff (env : Env) (fuel : Nat) (s : St) (p : Prog) (k :
   · rw [hnew] at h'; cases h'
   · exact h'
 
+/-- a nested load inside an evaluation creates the entry -/
+example : FreshCell (exEnv 1) exKey ⟨.int 1, true, 0, false, 0⟩ :=
+  C10_loaded_dynamic_iff (exEnv 1) 5 {} (.load exKey Prog.ret') exKey _ rfl (by decide)
+
 /-- the same for the API operation `load` -/
 theorem C10_load_dynamic_iff (env : Env) (fuel : Nat) (s : St) (key k : Key) (c : Cell)
     (hnew : s.lookup k = none) (h : (step env fuel s (.load key)).1.lookup k = some c) : FreshCell env k c := by
@@ -86,6 +140,13 @@ theorem C10_load_dynamic_iff (env : Env) (fuel : Nat) (s : St) (key k : Key) (c 
   rcases (Added.mapRel (newCells_fresh env)).evalTop_rel fuel s _ k c h with h' | h'
   · rw [hnew] at h'; cases h'
   · exact h'
+
+/-- hot type with reloader: dynamic; opted-out type, or no reloader: static -/
+example : ((step (exEnv 1) 5 {} (.load exKey)).1.lookup exKey).map (·.dyn) = some true ∧
+    ((step (exEnvOpt 1) 5 {} (.load exKeyOpt)).1.lookup exKeyOpt).map (·.dyn) = some false ∧
+    ((step (exEnvNo 1) 5 {} (.load exKey)).1.lookup exKey).map (·.dyn) = some false := by decide
+example : FreshCell (exEnvOpt 1) exKeyOpt ⟨.int 1, false, 0, false, 0⟩ :=
+  C10_load_dynamic_iff (exEnvOpt 1) 5 {} exKeyOpt exKeyOpt _ rfl (by decide)
 
 /-- `AllStaticWhen`: in a cache without reloader (`without_hot_reloading`, `LocalAssetCache`, a source
 that does not support hot-reloading) every cell that any evaluation adds is static. -/
@@ -98,12 +159,18 @@ theorem C10_all_static_when (env : Env) : AllStaticWhen env := by
   intro key v addr
   simp only [newCell, loadedEntryDynamic_cfg, hr, Bool.and_false]
 
+example : (exEnvNo 1).hasReloader = false ∧
+    ((eval (exEnvNo 1) 5 {} (.load exKey Prog.ret')).1.lookup exKey).map (·.dyn) = some false := by decide
+
 /-- every cell of a type that opts out of hot-reloading is created static, in every cache -/
 theorem C10_opted_out_static (env : Env) (fuel : Nat) (s : St) (p : Prog) :
     Added (fun k c => (env.types k.ty).hot = false → c.dyn = false) s (eval env fuel s p).1 := by
   refine eval_added env _ ?_ fuel s p
   intro key v addr hh
   simp only [newCell, loadedEntryDynamic_cfg, hh, Bool.false_and]
+
+example : ((exEnvOpt 1).types exKeyOpt.ty).hot = false ∧
+    ((eval (exEnvOpt 1) 5 {} (.load exKeyOpt Prog.ret')).1.lookup exKeyOpt).map (·.dyn) = some false := by decide
 
 /-! ## (c) `reload_untyped` does not touch a static entry -/
 
@@ -113,6 +180,10 @@ theorem C10_static_never_written (env : Env) (fuel : Nat) (s : St) (key : Key) (
     (hc : s.lookup key = some c) (hs : c.dyn = false) : reloadUntyped env fuel s key = (s, .done none) := by
   unfold reloadUntyped
   simp only [hc, reloadSkipsStatic_cfg, hs, Bool.not_false, Bool.and_self, if_true]
+
+/-- the reloader still has a typed node for the key (it was loaded before), the source changed: nothing -/
+example : reloadUntyped (exEnv 2) 5 exInserted.1 exKey = (exInserted.1, .done none) :=
+  C10_static_never_written (exEnv 2) 5 exInserted.1 exKey ⟨.int 7, false, 0, false, 1⟩ (by decide) rfl
 
 /-- Even independently of that early return, a reload never writes to a static entry and never to
 another key's entry: the only cell a `reload_untyped` may change is the dynamic cell of its own key. -/
@@ -124,12 +195,18 @@ theorem C10_reload_writes_only_dynamic (env : Env) (fuel : Nat) (s : St) (key k 
     rw [h1, e.static hs]
   · exact reloadUntyped_other env fuel s key k c hk hc
 
+example : (reloadUntyped (exEnv 2) 5 exInserted.1 exKeyOpt).1.lookup exKey = some ⟨.int 7, false, 0, false, 1⟩ :=
+  C10_reload_writes_only_dynamic (exEnv 2) 5 exInserted.1 exKeyOpt exKey _ (by decide) (Or.inl rfl)
+
 /-! ## (d) no reloader pass changes a static entry -/
 
 theorem static_of_ev {s t : St} (h : s.Ev t) (k : Key) (c : Cell) (hc : s.lookup k = some c) (hs : c.dyn = false) :
     t.lookup k = some c := by
   obtain ⟨c', h1, e⟩ := h k c hc
   rw [h1, e.static hs]
+
+example : exInserted.1.lookup exKey = some ⟨.int 7, false, 0, false, 1⟩ :=
+  static_of_ev (St.Ev.refl _) exKey _ (by decide) rfl
 
 /-- For every environment, fuel, cache and reloader state: a static cell stored under `k` is stored
 unchanged (same value, reload id, flag, address) after `reloadAll` over any key list, `runUpdate`,
@@ -147,6 +224,12 @@ theorem C10_static_preserved_pass (env : Env) (fuel : Nat) (s : St) (r : RSt) (k
    static_of_ev (hotReload_ev env fuel s r) k c hc hs,
    static_of_ev (enhance_ev env fuel s r) k c hc hs⟩
 
+/-- the stale graph node makes the pass call `reload_untyped` for the key — and nothing happens to it -/
+example : (hotReload (exEnv 2) 5 exInserted.1 { exInserted.2 with toReload := [.asset exKey] }).1.lookup exKey =
+    some ⟨.int 7, false, 0, false, 1⟩ :=
+  (C10_static_preserved_pass (exEnv 2) 5 exInserted.1 _ exKey _ (by decide) rfl).2.2.2.1
+example : topo exInserted.2.graph 5 [.asset exKey] = some [exKey] := by decide
+
 /-- A pass over a cache that holds only static entries does nothing to the cache at all. -/
 theorem C10_all_static_pass_noop (env : Env) (fuel : Nat) (keys : List Key) (s : St) (r : RSt)
     (hs : s.All (fun _ c => c.dyn = false)) : (reloadAll env fuel keys (s, r)).1 = s := by
@@ -162,6 +245,15 @@ theorem C10_all_static_pass_noop (env : Env) (fuel : Nat) (keys : List Key) (s :
   subst this
   exact h2 hs
 
+example : (reloadAll (exEnv 2) 5 [exKey, exKeyOpt] ((step (exEnvNo 1) 5 {} (.load exKey)).1, {})).1 =
+    (step (exEnvNo 1) 5 {} (.load exKey)).1 :=
+  C10_all_static_pass_noop _ _ _ _ _ (by
+    intro k c h
+    rcases step_added (exEnvNo 1) 5 {} (.load exKey) (fun _ c => c.dyn = false)
+      ⟨fun _ _ _ => rfl, fun _ _ _ => rfl⟩ k c h with h' | h'
+    · simp [St.lookup] at h'
+    · exact h')
+
 /-! ## (e) histories -/
 
 /-- **Static entries are never rewritten, in any history.** For every list of (environment,
@@ -173,6 +265,9 @@ theorem C10_history (fuel : Nat) (h : List (Env × HOp)) (s : St) (r : RSt) (k :
     (runH fuel h (s, r)).1.lookup k = some c := by
   obtain ⟨c', h1, e⟩ := runH_ev fuel h (s, r) k c hkeep hc
   rw [h1, e.static hs]
+
+example : (runH 5 (exHistory.drop 4) exInserted).1.lookup exKey = some ⟨.int 7, false, 0, false, 1⟩ :=
+  C10_history 5 (exHistory.drop 4) exInserted.1 exInserted.2 exKey _ (by decide) rfl (by decide)
 
 /-- **Values stored with `get_or_insert`**: after ANY prefix history `h1` (in which the key may have
 been loaded, registered with the reloader, removed, cleared, …), if the key is absent and
@@ -189,6 +284,15 @@ theorem C10_history_get_or_insert (fuel : Nat) (h1 h2 : List (Env × HOp)) (x0 :
   generalize runH fuel h1 x0 = x at habs ⊢
   obtain ⟨s, r⟩ := x
   exact C10_history fuel h2 _ r key _ (C10_get_or_insert_static env fuel s key v habs).1 rfl hkeep
+
+/-- the theorem applies to the history (its hypotheses hold) … -/
+example : (runH 5 exHistory ({}, {})).1.lookup exKey =
+    some { val := .int 7, dyn := false, rid := ReloadId_NEVER, flag := false, addr := 1 } :=
+  C10_history_get_or_insert 5 (exHistory.take 3) (exHistory.drop 4) ({}, {}) (exEnv 1) exKey (.int 7)
+    (by decide) (by decide)
+
+/-- … and the model computes the same -/
+example : (runH 5 exHistory ({}, {})).1.lookup exKey = some ⟨.int 7, false, 0, false, 1⟩ := by decide
 
 /-- **Opted-out types and caches without reloader**: an entry that a `load` creates while the type
 opts out of hot-reloading or the cache has no reloader is static, and stays stored unchanged with
@@ -214,6 +318,12 @@ theorem C10_history_load_static (fuel : Nat) (h2 : List (Env × HOp)) (s : St) (
   simp only [runH, hstep]
   exact C10_history fuel h2 _ r key c hload hd hkeep
 
+/-- opted-out type in a cache with reloader, notified and "reloaded": unchanged -/
+example : (runH 5 [(exEnvOpt 1, .api (.load exKeyOpt)), (exEnvOpt 2, .notify [.asset exKeyOpt]), (exEnvOpt 2, .hotReload)]
+    ({}, {})).1.lookup exKeyOpt = some ⟨.int 1, false, 0, false, 0⟩ :=
+  (C10_history_load_static 5 [(exEnvOpt 2, .notify [.asset exKeyOpt]), (exEnvOpt 2, .hotReload)] {} {} (exEnvOpt 1)
+    exKeyOpt _ (Or.inl rfl) rfl (by decide) (by decide)).2.2.2
+
 /-- **A cache without reloader holds only static entries, forever**: if every environment of the
 history has `hasReloader = false` and the cache starts with static entries only (e.g. empty), every
 entry at every later time is static — and so (by `C10_history`) unchanged until removed. -/
@@ -225,6 +335,9 @@ theorem C10_no_reloader_all_static (fuel : Nat) (h : List (Env × HOp)) (x : St 
   refine ⟨?_, fun key v addr => insertedEntryDynamic_cfg (e.1.types key.ty).hot e.1.hasReloader⟩
   intro key v addr
   simp only [newCell, loadedEntryDynamic_cfg, hnr e he, Bool.and_false]
+
+example : (runH 5 [(exEnvNo 1, .api (.load exKey)), (exEnvNo 2, .hotReload)] ({}, {})).1.All (fun _ c => c.dyn = false) :=
+  C10_no_reloader_all_static 5 _ ({}, {}) (by decide) (by intro k c h; simp [St.lookup] at h)
 
 /-- **A type that opts out is never dynamic**: if in every environment of the history the type
 `ty` is not hot-reloaded, no entry of that type is ever dynamic. -/
@@ -238,50 +351,8 @@ theorem C10_opted_out_never_dynamic (fuel : Nat) (ty : Nat) (h : List (Env × HO
   intro key v addr hk
   simp only [newCell, loadedEntryDynamic_cfg, hk, hty e he, Bool.false_and]
 
-/-! ## Non-vacuity: a concrete history -/
-
-/-- a cache WITH a reloader over a source where every type is hot-reloaded and loads to `n` -/
-def exEnv (n : Int) : Env :=
-  { read := fun _ _ _ => .ok [], readDir := fun _ _ => .ok [],
-    types := fun _ => { hot := true, prog := fun _ => .ret (.int n) }, hasReloader := true }
-
-def exKey : Key := ⟨0, "a"⟩
-
-/-- load (dynamic, registered with the reloader), remove, re-create with `get_or_insert`, edit the
-source (`exEnv 2`), notify, reload -/
-def exHistory : List (Env × HOp) :=
-  [(exEnv 1, .api (.load exKey)), (exEnv 1, .hotReload), (exEnv 1, .api (.remove exKey)),
-   (exEnv 1, .api (.getOrInsert exKey (.int 7))),
-   (exEnv 2, .notify [.asset exKey]), (exEnv 2, .hotReload)]
-
-/-- the load created a dynamic entry and the reloader knows it -/
-example : ((runH 5 (exHistory.take 2) ({}, {})).1.lookup exKey).map (·.dyn) = some true ∧
-    ((runH 5 (exHistory.take 2) ({}, {})).2.graph.get (.asset exKey)).map (·.typed) = some true := by
-  decide
-
-/-- and a dynamic entry IS rewritten by the same notification (the history is not trivially inert) -/
-example : ((runH 5 [(exEnv 1, .api (.load exKey)), (exEnv 1, .hotReload), (exEnv 2, .notify [.asset exKey]),
-    (exEnv 2, .hotReload)] ({}, {})).1.lookup exKey).map (fun c => (c.val, c.rid)) = some (.int 2, 1) := by
-  decide
-
-/-- the theorem applies to the history (its hypotheses hold) … -/
-example : (runH 5 exHistory ({}, {})).1.lookup exKey =
-    some { val := .int 7, dyn := false, rid := ReloadId_NEVER, flag := false, addr := 1 } :=
-  C10_history_get_or_insert 5 (exHistory.take 3) (exHistory.drop 4) ({}, {}) (exEnv 1) exKey (.int 7)
-    (by decide) (by decide)
-
-/-- … and the model computes the same -/
-example : (runH 5 exHistory ({}, {})).1.lookup exKey = some ⟨.int 7, false, 0, false, 1⟩ := by decide
-
-example : (step (exEnv 1) 5 {} (.getOrInsert exKey (.int 7))).1.lookup exKey = some ⟨.int 7, false, 0, false, 0⟩ :=
-  (C10_get_or_insert_static (exEnv 1) 5 {} exKey (.int 7) rfl).1
-
-/-- opted-out type in a cache with reloader: created static -/
-example : ((step { exEnv 1 with types := fun _ => { hot := false, prog := fun _ => .ret (.int 1) } } 5 {}
-    (.load exKey)).1.lookup exKey).map (·.dyn) = some false := by decide
-
-/-- `reload_untyped` on a static entry: nothing -/
-example : (reloadUntyped (exEnv 2) 5 (step (exEnv 1) 5 {} (.getOrInsert exKey (.int 7))).1 exKey).1.lookup exKey
-    = some ⟨.int 7, false, 0, false, 0⟩ := by decide
+example : (runH 5 [(exEnvOpt 1, .api (.load exKeyOpt)), (exEnvOpt 2, .hotReload)] ({}, {})).1.All
+    (fun k c => k.ty = 1 → c.dyn = false) :=
+  C10_opted_out_never_dynamic 5 1 _ ({}, {}) (by decide) (by intro k c h; simp [St.lookup] at h)
 
 end AmVerif.Props.C10
